@@ -239,6 +239,8 @@ def oracle(ops, records):
         prev = o
         res = o["res"]
         key = ref.key or (KEY_F21 if ref.f21 else "c33-oracle")
+        if res.startswith("EXC:") or res.startswith("DBAPI:"):
+            return (key, i, "step %d (%s) let an internal error escape: %s" % (i, tok, res))
         if exp["raises"] and res == "ok":
             return ("c33-oracle", i, "step %d (%s) did not raise" % (i, tok))
         if not exp["raises"] and res != "ok":
